@@ -382,3 +382,24 @@ def field_writes(S, field):
             if s["k"] == "assign" and any(isinstance(e, dict) and e.get("n") == field for e in s["place"]["p"]):
                 res.append((n, s))
     return res
+
+
+STD_WRITERS = ("std::cell::Cell::<T>::set", "std::cell::Cell::<T>::replace", "std::cell::Cell::<T>::take", "std::ptr::write", "std::ptr::drop_in_place",
+               "std::mem::replace", "std::mem::swap", "std::mem::take", "std::alloc::dealloc", "std::alloc::alloc")
+EFFECT_FREE_CRATE = ("utils::cold", "state::state", "state::try_state", "config::config")
+
+
+def effect_calls(events):
+    """Calls on a path that can change collector/object state: every crate function that is not a pure getter
+    (helpers are inlined, so what remains are anchors), and std cell/pointer writers."""
+    out = []
+    for x in events:
+        ci = x.ci
+        if ci["k"] != "call":
+            continue
+        np = ci["npath"]
+        if ci["kind"] in ("crate", "virtual") and np not in GETTERS and np not in EFFECT_FREE_CRATE:
+            out.append(x)
+        elif np in MUTATORS or np.startswith(STD_WRITERS):
+            out.append(x)
+    return out
